@@ -1,6 +1,6 @@
 """Per-property pipelines. Each function takes a vlib.Ctx and returns the exit code."""
 import json, os
-from vlib import tlc_mc, tlc_trace, hs_run, hs_rec, note_events, finish, ToolError, log, read_ndjson, write_ndjson
+from vlib import tlc_mc, tlc_trace, tlc_trace_stateful, hs_run, hs_rec, note_events, finish, ToolError, log, read_ndjson, write_ndjson
 
 SCALAR_TRIVIAL = {"null", "marker", "remove", "na", "bool"}
 
@@ -376,4 +376,25 @@ def c09(ctx):
                   ["hang = no reply within 3 s (15 s on the retry alone)"])
 
 
-CHECKS = {"C07": c07, "C08": c08, "C09": c09, "C10": c10, "C11": c11, "C03": c03, "C06": c06, "C01": c01, "C02": c02, "C04": c04, "C05": c05}
+def c13(ctx):
+    q = ctx.quick
+    vecs, _ = tlc_mc(ctx, "MC_Defs", consts={"Small": "TRUE" if q else "FALSE"}, invariants=["GraphLaws", "Emit"], workers=8, timeout=3000)
+    ev1 = hs_run(ctx, vecs, "gen")
+    ctx.bads += tlc_trace_stateful(ctx, "Trace_Defs", ev1, "defs.load", shards=14)
+    note_events(ctx, ev1, key=lambda e: ["gen", e.get("i")], trivial=lambda e: e.get("op") == "defs.load")
+    ev2 = hs_rec(ctx, "defs", 2 if q else 25)
+    ctx.bads += tlc_trace_stateful(ctx, "Trace_Defs", ev2, "defs.load", shards=14)
+    note_events(ctx, ev2, key=lambda e: ["rec", e.get("i")], trivial=lambda e: e.get("op") == "defs.load")
+    return finish(ctx,
+                  "GEN: MC_Defs enumerates %s defs grids over the names a b c d a-b a-c k:x choice u (per-def menus of `is` lists: diamonds, "
+                  "undefined supertypes, conjuncts, a feature key, a choice; non-symbol noise in `is`), checks graph theorems on each, and "
+                  "for each grid the harness asks every taxonomy query for every symbol (get/has, direct and transitive super/subtypes, "
+                  "inheritance, fits against every symbol, choices, conjunct parts) and reflects 54 records (tags absent / Marker / "
+                  "non-marker) incl. Reflection::fits and the ^symbol filter term for every symbol. REC: the real Project Haystack defs "
+                  "(tests/defs/defs.zinc): every symbol x every query, fits over all symbol pairs, reflection of corpus records and random "
+                  "marker sets; %d random acyclic taxonomies of 30-200 defs. Answers are compared as sets by Trace_Defs (stateful trace: "
+                  "defs.load sets the graph). distinct = distinct (grid, query) cases" % ("432" if q else "5184", 2 if q else 25),
+                  ["the defs grid is the input: its (def, is) projection is logged by the harness from the decoded Value", "taxonomies are acyclic"])
+
+
+CHECKS = {"C13": c13, "C07": c07, "C08": c08, "C09": c09, "C10": c10, "C11": c11, "C03": c03, "C06": c06, "C01": c01, "C02": c02, "C04": c04, "C05": c05}
